@@ -229,6 +229,71 @@ class Check:
         log("go test %s -run %s: rc=%d %.1fs" % (pkgdir, run, p.returncode, time.time() - t0))
         return p.returncode, out
 
+    def go_test_build(self, pkg, overlay, tags="verif", name=None):
+        """Compile the package's test binary (with the overlay harness files) once; returns its path."""
+        pkgdir = pkg.strip("./")
+        repl = {}
+        for fn in overlay:
+            src = os.path.join(ROOT, "harness", "inpkg", pkgdir, fn)
+            if not os.path.exists(src):
+                raise Broken("missing harness file " + src)
+            repl[os.path.join(REPO, pkgdir, fn)] = src
+        name = name or pkgdir.replace("/", "_")
+        ov = os.path.join(self.scratch, "overlay-%s.json" % name)
+        with open(ov, "w") as f:
+            json.dump({"Replace": repl}, f)
+        binpath = os.path.join(self.scratch, name + ".test")
+        cmd = ["go", "test", "-c", "-o", binpath, "-overlay=" + ov, "-vet=off"]
+        if tags:
+            cmd += ["-tags", tags]
+        cmd += ["./" + pkgdir]
+        t0 = time.time()
+        p = subprocess.run(cmd, cwd=REPO, env=go_env(), stdout=subprocess.PIPE, stderr=subprocess.STDOUT, text=True,
+                           timeout=900)
+        if p.returncode != 0 or not os.path.exists(binpath):
+            raise Broken("harness does not build against the current tree:\n" + p.stdout[-3000:])
+        log("built %s in %.1fs" % (binpath, time.time() - t0))
+        return binpath
+
+    def run_shards(self, binpath, run, inputs, outprefix, timeout=600, env=None, cwd=None, maxpar=None):
+        """Run the test binary once per input file in parallel. Returns list of (rc, output, outpath)."""
+        maxpar = maxpar or NCPU
+        procs = []
+        results = [None] * len(inputs)
+        pending = list(enumerate(inputs))
+        running = []
+        def start(i, inp):
+            e = go_env()
+            e["VERIF_SEED"] = str(self.seed + i)
+            e["VERIF_TIER"] = self.tier
+            e["VERIF_IN"] = inp
+            outp = "%s-%d.ndjson" % (outprefix, i)
+            e["VERIF_OUT"] = outp
+            e.update(env or {})
+            lf = open(outp + ".log", "w")
+            p = subprocess.Popen([binpath, "-test.run", run, "-test.timeout", "%ds" % timeout, "-test.count", "1"],
+                                 cwd=cwd or os.path.join(REPO, "proxy"), env=e, stdout=lf, stderr=subprocess.STDOUT)
+            return (i, p, outp, lf, time.time())
+        while pending or running:
+            while pending and len(running) < maxpar:
+                i, inp = pending.pop(0)
+                running.append(start(i, inp))
+            still = []
+            for (i, p, outp, lf, t0) in running:
+                rc = p.poll()
+                if rc is None:
+                    if time.time() - t0 > timeout + 60:
+                        p.kill()
+                        rc = -9
+                    else:
+                        still.append((i, p, outp, lf, t0))
+                        continue
+                lf.close()
+                results[i] = (rc, open(outp + ".log").read()[-3000:], outp)
+            running = still
+            time.sleep(0.05)
+        return results
+
     # ---------------------------------------------------------------- verdicts
     def violation(self, signature, what, replay_obj=None):
         """Report a property violation observed on the real code. Matches against known findings."""
